@@ -199,8 +199,8 @@ class RPE_process_data(FnContract):
             pe, pr = positions_of(est, est._n), positions_of(ref, ref._n)
             dist = lambda pos, k: npstub._norm_c(sym.carr([pos(I(k))[i] - pos(J(k))[i] for i in range(3)]))
             if rel == "point_distance":
-                yield Clause("one_value_per_pair", c.And(c.len(err) == K, c.len(ids) == K), role="prop")
-                yield Clause("end_indices_line_up", c.forall(K, lambda k: ids.get(k) == J(k)), role="prop")
+                yield Clause("one_value_per_pair", c.And(c.len(err) == K, c.len(ids) == K), role="prop", props=["C02", "C12"])
+                yield Clause("end_indices_line_up", c.forall(K, lambda k: ids.get(k) == J(k)), role="prop", props=["C02", "C12"])
                 yield Clause("value_is_difference_of_straight_line_distances", c.forall(K, lambda k: c.eq(
                     err.row(k), c.abs(dist(pr, k) - dist(pe, k)))), role="prop")
             else:
@@ -211,13 +211,14 @@ class RPE_process_data(FnContract):
                 m = c.len(nz)
                 sel = nz.row
                 yield Clause("one_value_per_pair_with_nonzero_reference_distance",
-                             c.And(c.len(err) == m, c.len(ids) == m), role="prop")
+                             c.And(c.len(err) == m, c.len(ids) == m), role="prop", props=["C02", "C12"])
                 yield Clause("skipped_exactly_the_zero_reference_distances", c.And(
                     c.forall(m, lambda q: c.And(0 <= sel(q), sel(q) < K, c.Not(c.eq(dist(pr, sel(q)), 0)))),
                     c.forall2(m, lambda x, y: sel(x) < sel(y)),
                     c.forall(K, lambda k: c.Implies(c.Not(c.eq(dist(pr, k), 0)), c.exists(m, lambda q: sel(q) == k)), "kk")),
                     role="prop")
-                yield Clause("end_indices_line_up", c.forall(m, lambda q: ids.get(q) == J(sel(q))), role="prop")
+                yield Clause("end_indices_line_up", c.forall(m, lambda q: ids.get(q) == J(sel(q))), role="prop",
+                             props=["C02", "C12"])
                 yield Clause("value_is_percentage_of_reference_distance", c.forall(m, lambda q: c.eq(
                     err.row(q), c.abs(dist(pr, sel(q)) - dist(pe, sel(q))) / dist(pr, sel(q)) * 100)), role="prop")
         else:
